@@ -49,6 +49,11 @@ theorem pos_of_asI32_pos {n : Nat} (h : asI32 n > 0) : 0 < n := by
   · simp at h
   · exact hp
 
+theorem asI32_small {n : Nat} (h : n < 2147483648) : asI32 n = n := by
+  unfold asI32
+  have : n % 4294967296 = n := Nat.mod_eq_of_lt (by omega)
+  simp [this, h]
+
 /-- `usize` subtraction: `none` = underflow panic (debug) -/
 def checkedSub (a b : Nat) : Option Nat := if b ≤ a then some (a - b) else none
 
@@ -203,7 +208,7 @@ theorem abs_advance (v : PV) (h : v.position + 1 < v.tree.length) :
   simp only [PV.abs, Visitor.advance, hd]
   simp only [List.getD, List.getElem?_eq_getElem h, List.getElem?_eq_getElem hlt, Option.getD_some]
   congr 1
-  rw [List.take_succ, List.getElem?_eq_getElem hlt]
+  rw [List.take_add_one, List.getElem?_eq_getElem hlt]
   simp
 
 theorem abs_retreat (v : PV) (h : v.WF) (hp : 0 < v.position) :
@@ -213,7 +218,7 @@ theorem abs_retreat (v : PV) (h : v.WF) (hp : 0 < v.position) :
   have hlt : p < v.tree.length := by omega
   have hlt1 : p + 1 < v.tree.length := by omega
   simp only [PV.abs, Visitor.retreat, hp', Nat.add_sub_cancel]
-  rw [List.take_succ, List.getElem?_eq_getElem hlt]
+  rw [List.take_add_one, List.getElem?_eq_getElem hlt]
   simp only [Option.toList_some, List.reverse_append, List.reverse_cons, List.reverse_nil, List.nil_append,
     List.singleton_append]
   simp only [List.getD, List.getElem?_eq_getElem hlt, List.getElem?_eq_getElem hlt1, Option.getD_some]
@@ -258,7 +263,7 @@ theorem enter_no_panic (v : PV) (data : Bytes) (h : v.WF) :
         refine ⟨_, _, rfl, h, ?_⟩
         simp only [Visitor.enter, hne, if_false]
         have : v.abs.kind = .prepend := hk
-        have hs' : v.abs.hasSel = false := by simpa using hs
+        have hs' : v.abs.hasSel = false := by show v.hasSel = false; simpa using hs
         simp only [this, hs', Bool.not_false, if_true]
         rfl
     | replace =>
@@ -272,7 +277,7 @@ theorem enter_no_panic (v : PV) (data : Bytes) (h : v.WF) :
 theorem leaveMove_no_panic (v : PV) (g : Bool) (h : v.WF) :
     ∃ nl v', v.leaveMove g = some (nl, v') ∧ v'.WF ∧ v'.kind = v.kind ∧ v'.sel = v.sel ∧ v'.content = v.content ∧
       v'.isBuffering = v.isBuffering ∧
-      (asI32 v.position > 0 → v.abs.leaveMove g = (nl, v'.abs)) := by
+      (v.tree.length < 2147483648 → v.abs.leaveMove g = (nl, v'.abs)) := by
   unfold PV.leaveMove
   by_cases hc : asI32 v.position > 0 ∧ g = true
   · rw [if_pos hc]
@@ -292,11 +297,580 @@ theorem leaveMove_no_panic (v : PV) (g : Bool) (h : v.WF) :
     rfl
   · rw [if_neg hc]
     refine ⟨none, v, rfl, h, rfl, rfl, rfl, rfl, ?_⟩
-    intro hpos
-    have hg : g = false := by
-      cases g with
-      | false => rfl
-      | true => exact absurd ⟨hpos, rfl⟩ hc
-    simp [Visitor.leaveMove, hg]
+    intro hlen
+    have hsm : asI32 v.position = v.position := asI32_small (by unfold PV.WF at h; omega)
+    have hc' : ¬ (v.abs.before ≠ [] ∧ g = true) := by
+      intro ⟨h1, h2⟩
+      apply hc
+      refine ⟨?_, h2⟩
+      rw [hsm]
+      exact_mod_cast (abs_before_ne v h).mp h1
+    simp only [Visitor.leaveMove, hc', if_false]
+
+theorem enter_tree (v : PV) (data : Bytes) (r : Option Bytes × Option Bytes × Bool × Bytes) (v' : PV)
+    (h : v.enter data = some (r, v')) : v'.tree = v.tree := by
+  unfold PV.enter at h
+  cases h1 : v.tree[v.position]? with
+  | none => simp [h1] at h
+  | some cur =>
+    simp only [h1] at h
+    by_cases hlt : v.position + 1 < v.tree.length
+    · simp only [hlt, if_true] at h
+      cases h2 : v.tree[v.position + 1]? with
+      | none => simp [h2] at h
+      | some nxt =>
+        simp only [h2] at h
+        injection h with h; injection h with _ h2; subst h2; rfl
+    · simp only [hlt, if_false] at h
+      cases hk : v.kind <;> simp only [hk] at h
+      · injection h with h; injection h with _ h2; subst h2; rfl
+      · split at h <;> (injection h with h; injection h with _ h2; subst h2; rfl)
+      · injection h with h; injection h with _ h2; subst h2; rfl
+
+theorem leaveMove_tree (v : PV) (g : Bool) (nl : Option Bytes) (v' : PV)
+    (h : v.leaveMove g = some (nl, v')) : v'.tree = v.tree := by
+  unfold PV.leaveMove at h
+  split at h
+  · cases h1 : checkedSub v.position 1 with
+    | none => simp [h1] at h
+    | some p =>
+      simp only [h1] at h
+      cases h2 : v.tree[p]? with
+      | none => simp [h2] at h
+      | some c =>
+        simp only [h2] at h
+        injection h with h; injection h with _ h2; subst h2; rfl
+  · injection h with h; injection h with _ h2; subst h2; rfl
+
+/-- **`leave` never panics**, keeps `position < len`, and (for paths shorter than 2^31 elements, where
+`position as i32` is `position`) is the model's `leave`. -/
+theorem leave_no_panic (tk : Tokenize) (ev : Bytes → Bytes → Bool) (v : PV) (data : Bytes) (h : v.WF) :
+    ∃ r v', v.leave tk ev data = some (r, v') ∧ v'.WF ∧ v'.tree = v.tree ∧
+      (v.tree.length < 2147483648 → v.abs.leave tk ev data = (r, v'.abs)) := by
+  unfold PV.leave
+  rw [getElem?_of_wf v h]
+  simp only
+  have hproc : decide (v.position + 1 ≥ v.tree.length) = decide (v.abs.after = []) := by
+    have := abs_after_ne v h
+    by_cases hc : v.position + 1 < v.tree.length
+    · have h1 : v.abs.after ≠ [] := this.mpr hc
+      simp [h1]; omega
+    · have h1 : v.abs.after = [] := by
+        by_cases he : v.abs.after = []
+        · exact he
+        · exact absurd (this.mp he) hc
+      simp [h1]; omega
+  cases hk : v.kind with
+  | append =>
+    obtain ⟨nl, v1, e1, w1, k1, s1, c1, b1, r1⟩ := leaveMove_no_panic v true h
+    simp only [e1]
+    have hka : v.abs.kind = .append := hk
+    have key : ∀ (hlen : v.tree.length < 2147483648), v.abs.leaveMove true = (nl, v1.abs) := r1
+    by_cases hp : v.position + 1 ≥ v.tree.length
+    · have hpa : v.abs.after = [] := by simpa [hp] using hproc
+      simp only [hp, decide_true, if_true]
+      by_cases hs : v.hasSel = true
+      · have hsa : v.abs.hasSel = true := hs
+        simp only [hs, if_true]
+        by_cases he : ev data (v.sel.getD []) = true
+        · simp only [he, Bool.not_true, Bool.false_eq_true, if_false]
+          refine ⟨_, _, rfl, w1, by simpa using leaveMove_tree _ _ _ _ e1, fun hlen => ?_⟩
+          have he' : ev data v.abs.selector = true := he
+          simp [Visitor.leave, hka, hpa, hsa, he', key hlen]
+          try (first | rfl | simp [PV.abs, List.getD, c1, b1, k1, s1])
+        · simp only [he, Bool.not_false, if_true]
+          refine ⟨_, _, rfl, w1, by simpa using leaveMove_tree _ _ _ _ e1, fun hlen => ?_⟩
+          have he' : ev data v.abs.selector = false := by show ev data (v.sel.getD []) = false; simpa using he
+          simp [Visitor.leave, hka, hpa, hsa, he', key hlen]
+          try (first | rfl | simp [PV.abs, List.getD, c1, b1, k1, s1])
+      · simp only [hs, Bool.false_eq_true, if_false]
+        refine ⟨_, _, rfl, w1, by simpa using leaveMove_tree _ _ _ _ e1, fun hlen => ?_⟩
+        have hsa : v.abs.hasSel = false := by show v.hasSel = false; simpa using hs
+        simp [Visitor.leave, hka, hpa, hsa, key hlen]
+        try (first | rfl | simp [PV.abs, List.getD, c1, b1, k1, s1])
+    · have hpa : v.abs.after ≠ [] := by
+        intro hc; rw [hc] at hproc; simp at hproc; omega
+      simp only [hp, decide_false, Bool.false_eq_true, if_false]
+      refine ⟨_, _, rfl, w1, by simpa using leaveMove_tree _ _ _ _ e1, fun hlen => ?_⟩
+      simp [Visitor.leave, hka, hpa, key hlen]
+      try (first | rfl | simp [PV.abs, List.getD, c1, b1, k1, s1])
+  | prepend =>
+    obtain ⟨nl, v1, e1, w1, k1, s1, c1, b1, r1⟩ := leaveMove_no_panic v true h
+    simp only [e1]
+    have hka : v.abs.kind = .prepend := hk
+    by_cases hb : (v.isBuffering && v.hasSel) = true
+    · have hba : (v.abs.isBuffering && v.abs.hasSel) = true := hb
+      simp only [hb, if_true]
+      by_cases he : ev data (v.sel.getD []) = true
+      · simp only [he, Bool.not_true, Bool.false_eq_true, if_false]
+        refine ⟨_, _, rfl, w1, by simpa using leaveMove_tree _ _ _ _ e1, fun hlen => ?_⟩
+        have he' : ev data v.abs.selector = true := he
+        simp [Visitor.leave, hka, hba, he', r1 hlen]
+        try (first | rfl | simp [PV.abs, List.getD, c1, b1, k1, s1])
+      · simp only [he, Bool.not_false, if_true]
+        refine ⟨_, _, rfl, w1, by simpa using leaveMove_tree _ _ _ _ e1, fun hlen => ?_⟩
+        have he' : ev data v.abs.selector = false := by show ev data (v.sel.getD []) = false; simpa using he
+        simp [Visitor.leave, hka, hba, he', r1 hlen]
+        try (first | rfl | simp [PV.abs, List.getD, c1, b1, k1, s1])
+    · simp only [hb, Bool.false_eq_true, if_false]
+      refine ⟨_, _, rfl, w1, by simpa using leaveMove_tree _ _ _ _ e1, fun hlen => ?_⟩
+      have hba : (v.abs.isBuffering && v.abs.hasSel) = false := by
+        show (v.isBuffering && v.hasSel) = false; simpa using hb
+      simp [Visitor.leave, hka, hba, r1 hlen]
+      try (first | rfl | simp [PV.abs, List.getD, c1, b1, k1, s1])
+  | replace =>
+    obtain ⟨nl, v1, e1, w1, k1, s1, c1, b1, r1⟩ := leaveMove_no_panic v (!v.isBuffering) h
+    simp only [e1]
+    have hka : v.abs.kind = .replace := hk
+    have r1' : v.tree.length < 2147483648 → v.abs.leaveMove (!v.abs.isBuffering) = (nl, v1.abs) := r1
+    by_cases hb : v.isBuffering = true
+    · have hba : v.abs.isBuffering = true := hb
+      simp only [hb, if_true]
+      by_cases hs : v.hasSel = true
+      · have hsa : v.abs.hasSel = true := hs
+        simp only [hs, Bool.not_true, Bool.false_eq_true, if_false]
+        by_cases he : ev data (v.sel.getD []) = true
+        · simp only [he, if_true]
+          refine ⟨_, _, rfl, w1, by simpa using leaveMove_tree _ _ _ _ e1, fun hlen => ?_⟩
+          have he' : ev data v.abs.selector = true := he
+          have := r1' hlen
+          rw [hba] at this
+          simp only [Bool.not_true, Bool.not_false] at this
+          simp [Visitor.leave, hka, hba, hsa, he', this]
+          try (first | rfl | simp [PV.abs, List.getD, c1, b1, k1, s1])
+        · simp only [he, Bool.false_eq_true, if_false]
+          refine ⟨_, _, rfl, w1, by simpa using leaveMove_tree _ _ _ _ e1, fun hlen => ?_⟩
+          have he' : ev data v.abs.selector = false := by show ev data (v.sel.getD []) = false; simpa using he
+          have := r1' hlen
+          rw [hba] at this
+          simp only [Bool.not_true, Bool.not_false] at this
+          simp [Visitor.leave, hka, hba, hsa, he', this]
+          try (first | rfl | simp [PV.abs, List.getD, c1, b1, k1, s1])
+      · simp only [hs, Bool.not_false, if_true]
+        refine ⟨_, _, rfl, w1, by simpa using leaveMove_tree _ _ _ _ e1, fun hlen => ?_⟩
+        have hsa : v.abs.hasSel = false := by show v.hasSel = false; simpa using hs
+        have := r1' hlen
+        rw [hba] at this
+        simp only [Bool.not_true, Bool.not_false] at this
+        simp [Visitor.leave, hka, hba, hsa, this]
+        try (first | rfl | simp [PV.abs, List.getD, c1, b1, k1, s1])
+    · simp only [hb, Bool.false_eq_true, if_false]
+      refine ⟨_, _, rfl, w1, by simpa using leaveMove_tree _ _ _ _ e1, fun hlen => ?_⟩
+      have hba : v.abs.isBuffering = false := by show v.isBuffering = false; simpa using hb
+      have := r1' hlen
+      rw [hba] at this
+      simp only [Bool.not_true, Bool.not_false] at this
+      simp [Visitor.leave, hka, hba, this]
+      try (first | rfl | simp [PV.abs, List.getD, c1, b1, k1, s1])
+
+/-! ### `HtmlFilterBodyAction` over the explicit visitor -/
+
+structure PSt where
+  enter : Option Bytes
+  leave : Option Bytes := none
+  pv : PV
+  stack : List Link := []
+  last : Bytes := []
+
+def PSt.abs (s : PSt) : HtmlSt :=
+  { enter := s.enter, leave := s.leave, visitor := s.pv.abs, stack := s.stack, last := s.last }
+
+/-- `HtmlFilterBodyAction::new`: `visitor.first()` is `element_tree[0]` -/
+def PSt.new (v : PV) : Option PSt := v.first.map fun f => { enter := some f, pv := v }
+
+/-- `on_start_tag_token`; `none` = panic -/
+def ponStart (s : PSt) (name data : Bytes) : Option (PSt × Bytes) :=
+  if s.enter = some name then
+    match s.pv.enter data with
+    | none => none
+    | some ((ne, nl, startBuffer, data'), v') =>
+      let s1 : PSt := { s with enter := ne, leave := nl, pv := v' }
+      if startBuffer then some ({ s1 with stack := ⟨[], name⟩ :: s1.stack }, data') else some (s1, data')
+  else some (s, data)
+
+/-- `on_end_tag_token`; the `current_buffer.as_ref().unwrap()`s are under `current_buffer.is_some()`: pattern matches -/
+def ponEnd (tk : Tokenize) (ev : Bytes → Bytes → Bool) (s : PSt) (name data : Bytes) : Option (PSt × Bytes) :=
+  let tm := topMatches s.stack name
+  let buffer := if tm then topBuffer s.stack ++ data else data
+  let r : Option (PSt × Bytes) :=
+    if s.leave = some name then
+      match s.pv.leave tk ev buffer with
+      | none => none
+      | some ((ne, nl, b), v') => some ({ s with enter := ne, leave := nl, pv := v' }, b)
+    else some (s, buffer)
+  match r with
+  | none => none
+  | some (s1, buffer1) => if tm then some ({ s1 with stack := s1.stack.tail }, buffer1) else some (s1, buffer1)
+
+def ppush (s : PSt) (out data : Bytes) : PSt × Bytes :=
+  match s.stack with
+  | l :: rest => ({ s with stack := { l with buffer := l.buffer ++ data } :: rest }, out)
+  | [] => (s, out ++ data)
+
+def pstepTok (tk : Tokenize) (ev : Bytes → Bytes → Bool) (so : PSt × Bytes) (t : Tok) : Option (PSt × Bytes) :=
+  let (s, out) := so
+  match t.kind with
+  | .startTag =>
+    match ponStart s t.name t.raw with
+    | none => none
+    | some (s1, d1) =>
+      if isVoid t.name then
+        match ponEnd tk ev s1 t.name d1 with
+        | none => none
+        | some (s2, d2) => some (ppush s2 out d2)
+      else some (ppush s1 out d1)
+  | .endTag =>
+    match ponEnd tk ev s t.name t.raw with
+    | none => none
+    | some (s1, d1) => some (ppush s1 out d1)
+  | .selfClosing =>
+    match ponStart s t.name t.raw with
+    | none => none
+    | some (s1, d1) =>
+      match ponEnd tk ev s1 t.name d1 with
+      | none => none
+      | some (s2, d2) => some (ppush s2 out d2)
+  | _ => some (ppush s out t.raw)
+
+def pfold (tk : Tokenize) (ev : Bytes → Bytes → Bool) : List Tok → PSt × Bytes → Option (PSt × Bytes)
+  | [], so => some so
+  | t :: ts, so =>
+    match pstepTok tk ev so t with
+    | none => none
+    | some so' => pfold tk ev ts so'
+
+/-- `HtmlFilterBodyAction::filter`: outer `none` = PANIC, inner `none` = `Err` (invalid UTF-8) -/
+def pfilterHtml (tk : Tokenize) (ev : Bytes → Bytes → Bool) (s : PSt) (input : Bytes) : Option (Option (PSt × Bytes)) :=
+  match utf8Split (s.last ++ input) with
+  | none => some none
+  | some (data, pending) =>
+    let (ts, rest) := tk data
+    let (todo, held) := splitHeld ts
+    match pfold tk ev todo (s, []) with
+    | none => none
+    | some (s', out) => some (some ({ s' with last := held ++ rest ++ pending }, out))
+
+/-! ### no panic, and the explicit stage is the model's stage -/
+
+/-- paths shorter than 2^31 elements (`position as i32` is then `position`; only used for the refinement) -/
+def Small (s : PSt) : Prop := s.pv.tree.length < 2147483648
+
+theorem ponStart_ok (s : PSt) (name data : Bytes) (h : s.pv.WF) :
+    ∃ s1 d1, ponStart s name data = some (s1, d1) ∧ s1.pv.WF ∧ s1.pv.tree = s.pv.tree ∧
+      onStart s.abs name data = (s1.abs, d1) := by
+  unfold ponStart
+  rw [onStart_eq]
+  by_cases he : s.enter = some name
+  · have he' : s.abs.enter = some name := he
+    rw [if_pos he, if_pos he']
+    obtain ⟨r, v', e, w, ab⟩ := enter_no_panic s.pv data h
+    obtain ⟨ne, nl, sb, d'⟩ := r
+    have ht := enter_tree _ _ _ _ e
+    rw [e]
+    simp only
+    have ab' : s.abs.visitor.enter data = ((ne, nl, sb, d'), v'.abs) := ab
+    rw [ab']
+    simp only
+    by_cases hb : sb = true
+    · simp only [hb, if_true]
+      exact ⟨_, _, rfl, w, ht, rfl⟩
+    · simp only [hb, Bool.false_eq_true, if_false]
+      exact ⟨_, _, rfl, w, ht, rfl⟩
+  · have he' : ¬ s.abs.enter = some name := he
+    rw [if_neg he, if_neg he']
+    exact ⟨s, data, rfl, h, rfl, rfl⟩
+
+theorem ponEnd_ok (tk : Tokenize) (ev : Bytes → Bytes → Bool) (s : PSt) (name data : Bytes) (h : s.pv.WF) :
+    ∃ s1 d1, ponEnd tk ev s name data = some (s1, d1) ∧ s1.pv.WF ∧ s1.pv.tree = s.pv.tree ∧
+      (Small s → onEnd tk ev s.abs name data = (s1.abs, d1)) := by
+  unfold ponEnd
+  rw [onEnd_eq]
+  simp only
+  have hst : s.abs.stack = s.stack := rfl
+  rw [hst]
+  generalize (if topMatches s.stack name = true then topBuffer s.stack ++ data else data) = buffer
+  by_cases hl : s.leave = some name
+  · have hl' : s.abs.leave = some name := hl
+    simp only [hl, hl', if_true]
+    obtain ⟨r, v', e, w, ht, ab⟩ := leave_no_panic tk ev s.pv buffer h
+    obtain ⟨ne, nl, b⟩ := r
+    rw [e]
+    simp only
+    by_cases htm : topMatches s.stack name = true
+    · simp only [htm, if_true]
+      refine ⟨_, _, rfl, w, ht, fun hs => ?_⟩
+      have ab' : s.abs.visitor.leave tk ev buffer = ((ne, nl, b), v'.abs) := ab hs
+      rw [ab']
+      rfl
+    · simp only [htm, Bool.false_eq_true, if_false]
+      refine ⟨_, _, rfl, w, ht, fun hs => ?_⟩
+      have ab' : s.abs.visitor.leave tk ev buffer = ((ne, nl, b), v'.abs) := ab hs
+      rw [ab']
+      rfl
+  · have hl' : ¬ s.abs.leave = some name := hl
+    simp only [hl, hl', if_false]
+    by_cases htm : topMatches s.stack name = true
+    · simp only [htm, if_true]
+      exact ⟨_, _, rfl, h, rfl, fun _ => rfl⟩
+    · simp only [htm, Bool.false_eq_true, if_false]
+      exact ⟨_, _, rfl, h, rfl, fun _ => rfl⟩
+
+theorem ppush_ok (s : PSt) (out d : Bytes) :
+    (ppush s out d).1.pv = s.pv ∧ push s.abs out d = ((ppush s out d).1.abs, (ppush s out d).2) := by
+  unfold ppush push
+  have hst : s.abs.stack = s.stack := rfl
+  rw [hst]
+  cases s.stack with
+  | nil => exact ⟨rfl, rfl⟩
+  | cons l rest => exact ⟨rfl, rfl⟩
+
+/-- one iteration of the token loop: no panic, visitor stays well formed, and it is the model's `stepTok` -/
+theorem pstepTok_ok (tk : Tokenize) (ev : Bytes → Bytes → Bool) (s : PSt) (out : Bytes) (t : Tok) (h : s.pv.WF) :
+    ∃ s1 o1, pstepTok tk ev (s, out) t = some (s1, o1) ∧ s1.pv.WF ∧ s1.pv.tree = s.pv.tree ∧
+      (Small s → stepTok tk ev (s.abs, out) t = (s1.abs, o1)) := by
+  unfold pstepTok
+  simp only
+  cases hk : t.kind with
+  | startTag =>
+    simp only
+    obtain ⟨s1, d1, e1, w1, t1, a1⟩ := ponStart_ok s t.name t.raw h
+    rw [e1]
+    simp only
+    rw [stepTok_start tk ev _ out t hk, a1]
+    by_cases hv : isVoid t.name = true
+    · simp only [hv, if_true]
+      obtain ⟨s2, d2, e2, w2, t2, a2⟩ := ponEnd_ok tk ev s1 t.name d1 w1
+      rw [e2]
+      simp only
+      obtain ⟨p1, p2⟩ := ppush_ok s2 out d2
+      refine ⟨(ppush s2 out d2).1, (ppush s2 out d2).2, rfl, by rw [p1]; exact w2, by rw [p1, t2, t1], fun hs => ?_⟩
+      have hs1 : Small s1 := by unfold Small at *; rw [t1]; exact hs
+      rw [a2 hs1, p2]
+    · simp only [hv, Bool.false_eq_true, if_false]
+      obtain ⟨p1, p2⟩ := ppush_ok s1 out d1
+      refine ⟨(ppush s1 out d1).1, (ppush s1 out d1).2, rfl, by rw [p1]; exact w1, by rw [p1, t1], fun _ => ?_⟩
+      rw [p2]
+  | endTag =>
+    simp only
+    obtain ⟨s1, d1, e1, w1, t1, a1⟩ := ponEnd_ok tk ev s t.name t.raw h
+    rw [e1]
+    simp only
+    obtain ⟨p1, p2⟩ := ppush_ok s1 out d1
+    refine ⟨(ppush s1 out d1).1, (ppush s1 out d1).2, rfl, by rw [p1]; exact w1, by rw [p1, t1], fun hs => ?_⟩
+    rw [stepTok_end tk ev _ out t hk, a1 hs, p2]
+  | selfClosing =>
+    simp only
+    obtain ⟨s1, d1, e1, w1, t1, a1⟩ := ponStart_ok s t.name t.raw h
+    rw [e1]
+    simp only
+    obtain ⟨s2, d2, e2, w2, t2, a2⟩ := ponEnd_ok tk ev s1 t.name d1 w1
+    rw [e2]
+    simp only
+    obtain ⟨p1, p2⟩ := ppush_ok s2 out d2
+    refine ⟨(ppush s2 out d2).1, (ppush s2 out d2).2, rfl, by rw [p1]; exact w2, by rw [p1, t2, t1], fun hs => ?_⟩
+    have hs1 : Small s1 := by unfold Small at *; rw [t1]; exact hs
+    rw [stepTok_self tk ev _ out t hk, a1]
+    simp only
+    rw [a2 hs1, p2]
+  | text =>
+    simp only
+    obtain ⟨p1, p2⟩ := ppush_ok s out t.raw
+    refine ⟨(ppush s out t.raw).1, (ppush s out t.raw).2, rfl, by rw [p1]; exact h, by rw [p1], fun _ => ?_⟩
+    rw [stepTok_other tk ev _ out t (by simp [hk, isTagKind]), p2]
+  | other =>
+    simp only
+    obtain ⟨p1, p2⟩ := ppush_ok s out t.raw
+    refine ⟨(ppush s out t.raw).1, (ppush s out t.raw).2, rfl, by rw [p1]; exact h, by rw [p1], fun _ => ?_⟩
+    rw [stepTok_other tk ev _ out t (by simp [hk, isTagKind]), p2]
+
+theorem pfold_ok (tk : Tokenize) (ev : Bytes → Bytes → Bool) : ∀ (ts : List Tok) (s : PSt) (out : Bytes), s.pv.WF →
+    ∃ s1 o1, pfold tk ev ts (s, out) = some (s1, o1) ∧ s1.pv.WF ∧ s1.pv.tree = s.pv.tree ∧
+      (Small s → ts.foldl (stepTok tk ev) (s.abs, out) = (s1.abs, o1))
+  | [], s, out, h => ⟨s, out, rfl, h, rfl, fun _ => rfl⟩
+  | t :: ts, s, out, h => by
+    obtain ⟨s1, o1, e1, w1, t1, a1⟩ := pstepTok_ok tk ev s out t h
+    obtain ⟨s2, o2, e2, w2, t2, a2⟩ := pfold_ok tk ev ts s1 o1 w1
+    refine ⟨s2, o2, by simp [pfold, e1, e2], w2, by rw [t2, t1], fun hs => ?_⟩
+    have hs1 : Small s1 := by unfold Small at *; rw [t1]; exact hs
+    rw [List.foldl_cons, a1 hs, a2 hs1]
+
+/-- **`filter_no_panic`.**  For every tokenizer, selector oracle, input bytes and every state whose visitor satisfies
+`position < element_tree.len()` (established by `HtmlBodyVisitor::new`, preserved here): `HtmlFilterBodyAction::filter`
+with all its index / unwrap / subtraction sites explicit does not panic, keeps the invariant, and (for paths shorter
+than 2^31 elements) returns exactly what the model `filterHtml` returns — `Err` on invalid UTF-8 included. -/
+theorem filter_no_panic (tk : Tokenize) (ev : Bytes → Bytes → Bool) (s : PSt) (x : Bytes) (h : s.pv.WF) :
+    ∃ r, pfilterHtml tk ev s x = some r ∧
+      (match r with
+       | none => filterHtml tk ev s.abs x = none
+       | some (s', o) => s'.pv.WF ∧ s'.pv.tree = s.pv.tree ∧ (Small s → filterHtml tk ev s.abs x = some (s'.abs, o))) := by
+  unfold pfilterHtml filterHtml
+  have hl : s.abs.last = s.last := rfl
+  rw [hl]
+  cases hsp : utf8Split (s.last ++ x) with
+  | none => exact ⟨none, rfl, rfl⟩
+  | some ap =>
+    obtain ⟨data, pending⟩ := ap
+    simp only
+    generalize tk data = tkd
+    obtain ⟨ts, rest⟩ := tkd
+    simp only
+    generalize splitHeld ts = sh
+    obtain ⟨todo, held⟩ := sh
+    simp only
+    obtain ⟨s1, o1, e1, w1, t1, a1⟩ := pfold_ok tk ev todo s [] h
+    rw [e1]
+    refine ⟨_, rfl, w1, t1, fun hs => ?_⟩
+    rw [a1 hs]
+    rfl
+
+/-- the freshly built stage: `first()` does not panic, the invariant holds, and it is the model's fresh stage -/
+theorem new_no_panic (action : String) (path : List Bytes) (sel : Option Bytes) (value : Bytes) (v : PV)
+    (h : PV.new action path sel value = some v) :
+    ∃ s, PSt.new v = some s ∧ s.pv.WF ∧ s.abs = HtmlSt.new v.abs := by
+  obtain ⟨hw, _, _⟩ := new_wf h
+  obtain ⟨f, hf⟩ := first_some v hw
+  refine ⟨{ enter := some f, pv := v }, by simp [PSt.new, hf], hw, ?_⟩
+  have hpos : v.position = 0 := by
+    unfold PV.new at h
+    repeat' split at h
+    all_goals first | (injection h with h; subst h; rfl) | simp at h
+  simp only [PSt.abs, HtmlSt.new]
+  congr 1
+  unfold PV.first at hf
+  simp only [Visitor.first, PV.abs, hpos, List.take_zero, List.reverse_nil]
+  have : 0 < v.tree.length := by unfold PV.WF at hw; omega
+  simp [List.getD, List.getElem?_eq_getElem this] at hf ⊢
+  exact hf.symm ▸ rfl
+
+/-! ### `tag_name().unwrap()` -/
+
+open Rio.Html Rio.Html.Tokenizer in
+/-- `tokenizeGo` (Model/FilterHtml.lean) where `tag_name()` returning `None` on a start / end / self-closing tag token
+is a PANIC (`tag_name.unwrap()` in `filter` and `append_child`; `unwrap_or_default()` for start tags in `filter`). -/
+def tokenizeGoS : Nat → Tokenizer → List Tok → Option (List Tok × Bytes)
+  | 0, _, _ => none
+  | n + 1, t, acc =>
+    let t1 := t.next
+    if t1.panic || t1.hang || t1.utf8Err then none
+    else if t1.token == .error then
+      match t1.raw, t1.buffered with
+      | some r, some b => some (acc.reverse, r ++ b)
+      | _, _ => none
+    else
+      match t1.raw with
+      | none => none
+      | some r =>
+        if Tokenizer.isTagLike t1.token then
+          match t1.tagName with
+          | (.ok (some nm, _), t2) => tokenizeGoS n t2 ({ kind := kindOf t1.token, raw := r, name := nm } :: acc)
+          | _ => none
+        else tokenizeGoS n t1 ({ kind := kindOf t1.token, raw := r } :: acc)
+
+open Rio.Html Rio.Html.Tokenizer in
+/-- **The `unwrap()`s on `tag_name()` never fire**: on every input the strict tokenisation is the tokenisation the
+model uses (from `Rio.C16.tag_name_some`: `tag_name()` is `Some` on every tag token). -/
+theorem tag_name_unwrap_ok : ∀ (n : Nat) (t : Tokenizer) (acc : List Tok), Inv t →
+    tokenizeGoS n t acc = tokenizeGo n t acc
+  | 0, _, _, _ => rfl
+  | n + 1, t, acc, hi => by
+    have hi1 : Inv (next t) := next_inv' t hi
+    rw [tokenizeGoS, tokenizeGo]
+    split
+    · rfl
+    · split
+      · rfl
+      · cases hr : (next t).raw with
+        | none => rfl
+        | some r =>
+          simp only
+          by_cases hk : Tokenizer.isTagLike (next t).token = true
+          · simp only [hk, if_true]
+            have hs := (Rio.C16.tag_name_some t hi hk).1
+            cases htn : tagName (next t) with
+            | mk res t2 =>
+              rw [htn] at hs
+              simp only at hs
+              cases res with
+              | ok x =>
+                obtain ⟨nm, b⟩ := x
+                cases nm with
+                | some nm =>
+                  simp only
+                  have hfr := tagName_frame (next t) (some nm, b) (by rw [htn]) hi1
+                  rw [htn] at hfr
+                  exact tag_name_unwrap_ok n t2 _ hfr.1
+                | none =>
+                  exfalso
+                  split at hs <;> simp at hs
+              | utf8Err => rfl
+              | panic => rfl
+          · simp only [hk, Bool.false_eq_true, if_false]
+            exact tag_name_unwrap_ok n (next t) _ hi1
+
+/-- on the level of the filters: the strict tokenisation of any buffer is `htmlTokenize?` -/
+theorem htmlTokenize_unwrap_ok (bs : Bytes) :
+    tokenizeGoS (bs.length + 2) (Rio.Html.Tokenizer.new bs.toArray) [] = htmlTokenize? bs :=
+  tag_name_unwrap_ok _ _ [] ⟨Nat.le_refl _, ⟨Nat.zero_le _, rfl, rfl, rfl⟩, Rio.Html.Tokenizer.TagOk_nil⟩
+
+/-! ### `level -= 1` in `append_child` (`level : i32`) -/
+
+def i32ok (l : Int) : Bool := decide (-2147483648 ≤ l) && decide (l ≤ 2147483647)
+
+/-- `append_child`'s loop with every `level += 1` / `level -= 1` checked for `i32` overflow (what a debug build does);
+outer `none` = overflow panic -/
+def appendChildGoP (child : Bytes) : List Tok → Bytes → Int → Bytes → Option (Option Bytes)
+  | [], _, _, _ => some none
+  | t :: ts, rest, level, out =>
+    let level1 := if t.kind = .startTag then (if isVoid t.name then level else level + 1) else level
+    -- `level += 1; if void { level -= 1 }`: the intermediate value is checked too
+    if t.kind = .startTag ∧ !i32ok (level + 1) then none
+    else if t.kind = .endTag then
+      let level2 := level1 - 1
+      if !i32ok level2 then none
+      else if level2 = 0 then some (some (out ++ child ++ t.raw ++ rawsOf ts ++ rest))
+      else appendChildGoP child ts rest level2 (out ++ t.raw)
+    else appendChildGoP child ts rest level1 (out ++ t.raw)
+
+/-- **No overflow of `level`**: `|level|` grows by at most one per token, so for a buffer of fewer than 2^31 - 1 tokens
+(a fortiori for every buffer shorter than 2 GiB: `Rio.C16.token_count_le`) the checked loop is the model's loop. -/
+theorem level_no_overflow (child : Bytes) : ∀ (ts : List Tok) (rest : Bytes) (level : Int) (out : Bytes),
+    level.natAbs + ts.length < 2147483647 →
+    appendChildGoP child ts rest level out = some (appendChildGo child ts rest level out)
+  | [], rest, level, out, _ => by simp [appendChildGoP, appendChildGo]
+  | t :: ts, rest, level, out, hb => by
+    rw [appendChildGoP, appendChildGo]
+    simp only [List.length_cons] at hb
+    simp only
+    have h1 : i32ok (level + 1) = true := by unfold i32ok; simp; omega
+    have hne : ¬ (t.kind = TokKind.startTag ∧ (!i32ok (level + 1)) = true) := by simp [h1]
+    rw [if_neg hne]
+    generalize hl1 : (if t.kind = TokKind.startTag then (if isVoid t.name = true then level else level + 1) else level) = l1
+    have hl1b : l1.natAbs ≤ level.natAbs + 1 := by
+      rw [← hl1]; split
+      · split <;> omega
+      · omega
+    by_cases he : t.kind = TokKind.endTag
+    · simp only [he, if_true]
+      have h2 : i32ok (l1 - 1) = true := by unfold i32ok; simp; omega
+      simp only [h2, Bool.not_true, Bool.false_eq_true, if_false]
+      by_cases hz : l1 - 1 = 0
+      · simp [hz]
+      · simp only [hz, if_false]
+        have hst : ¬ t.kind = TokKind.startTag := by rw [he]; simp
+        have : l1 = level := by rw [← hl1]; simp [hst]
+        exact level_no_overflow child ts rest (l1 - 1) (out ++ t.raw) (by omega)
+    · simp only [he, if_false]
+      exact level_no_overflow child ts rest l1 (out ++ t.raw) (by omega)
+
+/-! ### `data.split_off(err.valid_up_to())` -/
+
+/-- `valid_up_to() <= data.len()`: the split of the UTF-8 prologue is in range -/
+theorem split_off_in_range (d : Bytes) (n : Nat) (h : utf8Scan d = .incomplete n) : n ≤ d.length := by
+  unfold utf8Scan at h
+  obtain ⟨_, _, i3⟩ := utf8Go_spec d {} 0 0
+  obtain ⟨_, j2⟩ := i3 n h
+  rcases j2 with ⟨hn, _⟩ | ⟨a, r, _, hbs, _, hn, _⟩
+  · omega
+  · subst hbs; simp at hn ⊢; omega
 
 end Rio.C07
